@@ -28,6 +28,7 @@ bool               g_calibrating;
 const void*        g_cal_lo;
 const void*        g_cal_hi;
 __thread int       tls_cal_depth = 0;
+__thread int       tls_in_call   = 0;
 
 // ---- seam state
 int64_t  g_clock_ns;
@@ -443,6 +444,12 @@ void     calib_begin(const void* lo, const void* hi)
     g_calibrating = true;
 }
 void calib_end() { g_calibrating = false; }
+void call_enter() { ++tls_in_call; }
+void call_leave()
+{
+    if (tls_in_call > 0)
+        --tls_in_call;
+}
 uint32_t fine_seen() { return g.fine_seen; }
 uint64_t trace_hash() { return g.thash; }
 int      client_of_os_tid(long os)
@@ -563,19 +570,12 @@ extern "C"
         uint32_t id = *guard;
         if (g_calibrating)
         {
-            // bit 0: seen while the container's lock was held, bit 1: seen without it.
-            // Only blocks seen under the lock and never without it count as "locked code".
-            if (id < kMaxGuards)
+            // "locked code": a basic block executed, inside a call into the container, while the
+            // container's own mutex was held
+            if (id < kMaxGuards && tls_cal_depth > 0 && tls_in_call > 0 && !g_locked_bb[id])
             {
-                unsigned char bit = tls_cal_depth > 0 ? 1 : 2;
-                if (!(g_locked_bb[id] & bit))
-                {
-                    g_locked_bb[id] |= bit;
-                    if (g_locked_bb[id] == 1)
-                        ++g_locked_count;
-                    else if (g_locked_bb[id] == 3)
-                        --g_locked_count;
-                }
+                g_locked_bb[id] = 1;
+                ++g_locked_count;
             }
             return;
         }
@@ -584,8 +584,9 @@ extern "C"
             return;
         if (g.cur_op[self] < 0 || g.state[self] != C_READY)
             return;
-        // (1) code that calibration only ever saw under the container's lock, now running without it
-        if (g.held_own[self] == 0 && id < kMaxGuards && g_locked_bb[id] == 1)
+        // (1) code that calibration saw under the container's lock, now running inside a call
+        //     without it: the locking discipline is not uniform for this code
+        if (g.held_own[self] == 0 && tls_in_call > 0 && id < kMaxGuards && g_locked_bb[id])
         {
             uint32_t n = g.susp_seen++;
             while (g.susp_next < g.spec.nsusp && g.spec.susp[g.susp_next] < n)
